@@ -32,4 +32,5 @@ CONSTANTS
 INIT Init
 NEXT Next
 CONSTRAINT NetBound
+ACTION_CONSTRAINT CrashAfterConfChange
 INVARIANTS ElectionSafety LogMatching StateMachineSafety LeaderCompleteness CommitWithinLog PersistedMatchesVolatile MatchSound EmitSim
